@@ -58,6 +58,38 @@ std::vector<int> mkvec(uint64_t seed, int len)
   return v;
 }
 
+// element types without a stream operator of their own: they travel as their raw bytes
+struct Rgb
+{
+  uint8_t r = 0, g = 0, b = 0;  // member initialisers: not trivial, 3 bytes
+  bool operator==(const Rgb &o) const { return r == o.r && g == o.g && b == o.b; }
+};
+struct Tag
+{
+  uint8_t v;
+  Tag() : v(0) {}  // user-provided constructor: not trivial, 1 byte
+  explicit Tag(uint8_t x) : v(x) {}
+  bool operator==(const Tag &o) const { return v == o.v; }
+};
+template <typename E, typename F>
+std::vector<E> mkvec_of(const std::vector<int> &src, F f)
+{
+  std::vector<E> v;
+  v.reserve(src.size());
+  for (int x : src)
+    v.push_back(f(x));
+  return v;
+}
+template <typename E>
+bool read_vec_eq(ReadStream &r, const std::vector<E> &expect, bool prefilled)
+{
+  std::vector<E> x;
+  if (prefilled)
+    x.resize(3);
+  r >> x;
+  return x == expect;
+}
+
 // one generated value, held in its typed form
 struct Held
 {
@@ -73,6 +105,13 @@ struct Held
   std::vector<int> vi;
   std::vector<std::string> vs;
   std::vector<std::vector<int>> vvi;
+  std::vector<uint8_t> vu8;
+  std::vector<int16_t> vi16;
+  std::vector<Rgb> vrgb;
+  std::vector<std::pair<uint16_t, uint16_t>> vpair;
+  std::vector<Tag> vtag;
+  std::vector<double> vf64;
+  std::vector<Pod> vpod;
 };
 
 Held make(const A15Value &v)
@@ -92,6 +131,15 @@ Held make(const A15Value &v)
   h.pod.d = (double)(s >> 16);
   h.str = mkstring(s, v.len);
   h.vi = mkvec(s, v.len);
+  if (v.type >= A15_VEC_U8) {
+    h.vu8 = mkvec_of<uint8_t>(h.vi, [](int x) { return (uint8_t)x; });
+    h.vi16 = mkvec_of<int16_t>(h.vi, [](int x) { return (int16_t)x; });
+    h.vrgb = mkvec_of<Rgb>(h.vi, [](int x) { Rgb c; c.r = (uint8_t)x; c.g = (uint8_t)(x >> 8); c.b = (uint8_t)(x >> 16); return c; });
+    h.vpair = mkvec_of<std::pair<uint16_t, uint16_t>>(h.vi, [](int x) { return std::make_pair((uint16_t)x, (uint16_t)(x >> 16)); });
+    h.vtag = mkvec_of<Tag>(h.vi, [](int x) { return Tag((uint8_t)x); });
+    h.vf64 = mkvec_of<double>(h.vi, [](int x) { return (double)x / 4.0; });
+    h.vpod = mkvec_of<Pod>(h.vi, [](int x) { Pod p; std::memset(&p, 0, sizeof p); p.a = x; p.c = (char)x; p.d = (double)x; return p; });
+  }
   for (int i = 0; i < v.len && i < 4; i++) {
     h.vs.push_back(mkstring(s + (uint64_t)i, v.sub[i]));
     h.vvi.push_back(mkvec(s + (uint64_t)i, v.sub[i]));
@@ -114,6 +162,13 @@ void write_value(WriteStream &w, Held &h)
   case A15_VEC_INT: w << h.vi; break;
   case A15_VEC_STRING: w << h.vs; break;
   case A15_VEC_VEC_INT: w << h.vvi; break;
+  case A15_VEC_U8: w << h.vu8; break;
+  case A15_VEC_I16: w << h.vi16; break;
+  case A15_VEC_RGB: w << h.vrgb; break;
+  case A15_VEC_PAIR16: w << h.vpair; break;
+  case A15_VEC_TAG: w << h.vtag; break;
+  case A15_VEC_F64: w << h.vf64; break;
+  case A15_VEC_POD: w << h.vpod; break;
   case A15_ARRAYVIEW: {
     ArrayView<int> av(h.vi);
     const AbstractArray<int> &aa = av;
@@ -132,6 +187,7 @@ void write_value(WriteStream &w, Held &h)
     w << aa;
     break;
   }
+  case A15_FIXEDARRAYVIEW:
   default: {
     auto fa = std::make_shared<FixedArray<int>>(h.vi.data(), h.vi.size());
     FixedArrayView<int> fv(fa, 0, h.vi.size());
@@ -158,6 +214,13 @@ bool read_and_compare(ReadStream &r, const Held &h)
   case A15_CSTRING: { std::string x; if (h.u64 & 1) x = "old"; r >> x; return x == std::string(h.str.c_str()); }
   case A15_VEC_STRING: { std::vector<std::string> x; if (h.u64 & 1) x.assign(3, "old"); r >> x; return x == h.vs; }
   case A15_VEC_VEC_INT: { std::vector<std::vector<int>> x; if (h.u64 & 1) x.assign(2, std::vector<int>(2, 7)); r >> x; return x == h.vvi; }
+  case A15_VEC_U8: return read_vec_eq(r, h.vu8, h.u64 & 1);
+  case A15_VEC_I16: return read_vec_eq(r, h.vi16, h.u64 & 1);
+  case A15_VEC_RGB: return read_vec_eq(r, h.vrgb, h.u64 & 1);
+  case A15_VEC_PAIR16: return read_vec_eq(r, h.vpair, h.u64 & 1);
+  case A15_VEC_TAG: return read_vec_eq(r, h.vtag, h.u64 & 1);
+  case A15_VEC_F64: return read_vec_eq(r, h.vf64, h.u64 & 1);
+  case A15_VEC_POD: return read_vec_eq(r, h.vpod, h.u64 & 1);
   default: { std::vector<int> x; if (h.u64 & 1) x.assign(5, -1); r >> x; return x == h.vi; }  // vectors and all array wrappers share the framing
   }
 }
